@@ -355,10 +355,20 @@ class C13(Scenario):
         state = {"salts": sorted(nc["salt"] for nc in plan["nodes"]), "crashes": faults["crash"]["fired"], "recv": min(probes["objects_received_from_other_process"], 6)}
         return viols, {"faults": faults, "probes": probes, "state": state, "nontrivial": probes["equal_distinct_pairs"] > 0}
 
-    def simplify(self, plan, phase="post"):
+    def simplify(self, plan, phase="post", target=None):
         nodes = plan["nodes"]
         units = plan["units"]
         if phase == "pre":
+            d = (target or {}).get("detail") or {}
+            slots = [d[k] for k in ("a", "b", "c", "slot") if isinstance(d.get(k), int)]
+            base = [x for x in slots if x < RT_BASE]
+            if base and len(base) == len(slots):
+                # both objects are natively built: slice the pool program down to them
+                from sim.framework import slice_candidate
+
+                q = slice_candidate(plan, base, is_program=lambda u: u["k"] == "P")
+                if q is not None:
+                    yield q
             return
         for i, u in enumerate(units):
             if u.get("op") and u["op"][0] == "fault":
